@@ -3,6 +3,7 @@
    declarative Earley items (an item of the consumed prefix exists), which does
    not depend on any lookahead level; shift_count decides it. *)
 From YV Require Import Prelude EarleySpec Recognizer Viable Lookahead.
+From YV Require ReadGrammar Link.
 
 Theorem C06_first_unshiftable_token : forall g axiom w k acc, shift_count g axiom w = Some (k, acc) ->
   (forall j, j <= k -> j <= length w -> count_nonempty (earley_sets g axiom w) > 0 -> exists i, Item g axiom (firstn j w) i) /\
@@ -45,3 +46,21 @@ Theorem C06_error_token_under_lookahead : forall g axiom (keep : option nat -> i
      (exists i be, Sets (p ++ a :: rest) p i /\ after i = T a :: be) <-> (exists s, sentence g axiom ((p ++ [a]) ++ s)).
 Proof. intros g axiom keep Hk Sets Hlo Hhi. exact (proj2 (sandwich g axiom keep Hk Sets Hlo Hhi)). Qed.
 Print Assumptions C06_error_token_under_lookahead.
+
+(* "a grammar accepted under strict checking": the model of yaep_read_grammar with strict checking returns 0 only for
+   grammars that are productive in the sense above (Link.v: the flags of the definition model mean derivability in the
+   grammar of the recognition theory), so the two theorems above apply to every grammar C06 speaks about *)
+Theorem C06_strictly_accepted_grammars_are_productive : forall terms rules,
+  ReadGrammar.read_model true terms rules = 0%Z -> productive (Link.cg terms rules).
+Proof. exact Link.strict_accepted_is_productive. Qed.
+Print Assumptions C06_strictly_accepted_grammars_are_productive.
+
+Theorem C06_first_offending_token_of_accepted_grammars : forall terms rules axiom w k acc,
+  ReadGrammar.read_model true terms rules = 0%Z ->
+  shift_count (Link.cg terms rules) axiom w = Some (k, acc) -> count_nonempty (earley_sets (Link.cg terms rules) axiom w) > 0 ->
+  (forall j, j <= k -> j <= length w -> exists s, sentence (Link.cg terms rules) axiom (firstn j w ++ s)) /\
+  (k < length w -> ~ exists s, sentence (Link.cg terms rules) axiom (firstn (S k) w ++ s)).
+Proof.
+  intros terms rules axiom w k acc H. apply first_offending_token. apply Link.strict_accepted_is_productive. exact H.
+Qed.
+Print Assumptions C06_first_offending_token_of_accepted_grammars.
